@@ -151,8 +151,10 @@ int main(void)
 			if (ss[ns] == NULL && *c) bad = 1;
 			ns++;
 		}
+		/* an op C replaces the merged stream by a clone of itself (an independent stream at the same position) and is not part of the
+		 * recorded op string: cloning changes nothing about what comes out */
 		fprintf(o, "],\"ops\":[");
-		for (char *q = ops; *q; q++) fprintf(o, "%s\"%c\"", q == ops ? "" : ",", *q);
+		{ int fst = 1; for (char *q = ops; *q; q++) if (*q != 'C') { fprintf(o, "%s\"%c\"", fst ? "" : ",", *q); fst = 0; } }
 		fputs("],\"res\":[", o);
 		nd_crashed = 0;
 		if (!sigsetjmp(nd_jb, 1)) {
@@ -162,10 +164,13 @@ int main(void)
 			for (size_t k = 0; k < ns; k++) if (ss[k]) arr[na++] = ss[k];
 			echs_evstrm_t mux = na ? echs_evstrm_vmux(arr, na) : NULL;
 			if (!na) free(arr);
+			int fst = 1;
 			for (char *q = ops; *q; q++) {
 				echs_event_t e = {.from = {.u = 0}};
+				if (*q == 'C') { if (mux) { echs_evstrm_t c2 = clone_echs_evstrm(mux); free_echs_evstrm(mux); mux = c2; } continue; }
 				if (mux) e = *q == 'P' ? echs_evstrm_pop(mux) : echs_evstrm_next(mux);
-				if (q != ops) fputc(',', o);
+				if (!fst) fputc(',', o);
+				fst = 0;
 				if (echs_nul_event_p(e)) fputs("[]", o);
 				else {
 					const char *nm = "?"; for (size_t k = 0; k < ns; k++) if (ss[k] && oids[k] == e.oid) { nm = names[k]; break; }
